@@ -112,6 +112,9 @@ def run_all(ctx, cfgbin, work, thorough):
     ctx.add_tlc("model of parse_conf/from_tree vs Meaning, Dev={} (%s family)" % tname, r)
     ctx.require_tlc_ok("MC_Config_%s" % tname, r)
     ctx.require_cover("MC_Config_%s" % tname, r, ACTIONS)
+    r = run_tlc("MC_Config.tla", "MC_Config_live.cfg", D, workers=2, timeout=TO, work_id="c15live", heap="2g")
+    ctx.add_tlc("the loader always terminates (liveness under weak fairness, small family)", r)
+    ctx.require_tlc_ok("MC_Config_live", r)
     r = run_tlc("MC_Config.tla", "MC_Config_lemmas_%s.cfg" % tname, D, workers=4, timeout=TO, work_id="c15lem", heap="3g")
     ctx.add_tlc("lemmas: Meaning invariant under permutation / include splitting / unknown keys; defaults; faults found", r)
     ctx.require_tlc_ok("MC_Config_lemmas_%s" % tname, r)
